@@ -292,6 +292,62 @@ def bounded_filters(reg, tier, seed):
                          {"ops": [str(x) for x in ops_log[-10:]], "maxlen": maxlen})
                     break
             seen.add(("view", run))
+        # (3b) several loggers behind one WrappingMessageLogger (the GUI's log and a file log, say), each with its own filter, one of
+        # them paused part of the time: every logger's view is the retained entries matching *its* filter
+        from hippolyzer.lib.proxy.message_logger import WrappingMessageLogger
+        for run in range(6 if tier == "quick" else 40):
+            wrap = WrappingMessageLogger()
+            filts = [rng.choice(["ChatFromViewer || CompletePingCheck", "ChatFromViewer", "*", "AgentUpdate", "Nope"]) for _ in range(rng.choice([2, 3]))]
+            logs = []
+            for f_ in filts:
+                lg_ = FilteringMessageLogger(maxlen=50)
+                lg_.set_filter(f_)
+                logs.append(lg_)
+                wrap.loggers.append(lg_)
+            fresh = [e for e in _entries(h, rng, 12) if isinstance(e, LLUDPMessageLogEntry)]
+            kept = [[] for _ in logs]
+            for e in fresh:
+                evals += 1
+                if rng.random() < 0.15:
+                    k_ = rng.randrange(len(logs))
+                    logs[k_].set_paused(not logs[k_].paused)
+                for k_, lg_ in enumerate(logs):
+                    if not lg_.paused:
+                        kept[k_].append(e)
+                wrap.add_log_entry(e)
+            for k_, lg_ in enumerate(logs):
+                want = [id(e) for e in kept[k_] if compile_filter(filts[k_]).match(e, True)]
+                got = [id(e) for e in lg_]
+                if got != want:
+                    fail("filters/view", f"logger #{k_ + 1} of {len(logs)} behind one wrapper (filters {filts}) shows {len(got)} entries, its filter "
+                         f"{filts[k_]!r} matches {len(want)} of the entries logged while it was not paused", {"filters": filts, "logger": k_})
+                lg_.set_filter("*")
+                if [id(e) for e in lg_] != [id(e) for e in kept[k_]]:
+                    fail("filters/view", f"logger #{k_ + 1} behind a wrapper does not retain every entry logged while it was not paused "
+                         f"({len(list(lg_))} of {len(kept[k_])} after re-filtering with '*')", {"filters": filts, "logger": k_})
+            seen.add(("wrapper", run, tuple(filts)))
+        # (1e) Meta.* comparisons follow the value the message carries, also when that value is 0 or the empty string, and the message's
+        # own value shadows the entry's
+        for val in (0, 1, 5, "", "x"):
+            m0 = _M2("CompletePingCheck", _B2("PingID", PingID=1), packet_id=902, direction=_D2.OUT)
+            m0.meta["Hits"] = val
+            m0.meta["SelectedLocal"] = val
+            ent = LLUDPMessageLogEntry(m0, h.session.regions[0], h.session)
+            ent.meta["SelectedLocal"] = 1234
+            if isinstance(val, int):
+                cases = [(f"Meta.{k} {o} {lit}", cmp_[o](val, lit)) for k in ("Hits", "SelectedLocal") for o in cmp_ for lit in (0, 1, 1234)]
+            else:
+                cases = [(f"Meta.{k} {o} '{lit}'", cmp_[o](val, lit)) for k in ("Hits", "SelectedLocal") for o in ("==", "!=") for lit in ("", "x")]
+            for flt, want in cases:
+                evals += 1
+                seen.add(("meta", flt, val))
+                try:
+                    got = (bool(compile_filter(flt).match(ent, True)), bool(compile_filter(flt).match(ent, False)))
+                except Exception as ex:  # noqa
+                    fail("filters/compare", f"{flt!r} raised {type(ex).__name__}: {ex}", {"filter": flt, "meta_value": val})
+                    continue
+                if got != (want, want):
+                    fail("filters/compare", f"{flt!r} on a message whose meta carries {val!r} gave {got}, the comparison is {want}", {"filter": flt, "meta_value": val})
         # (4) freeze/thaw and export/import
         for e in entries:
             if not isinstance(e, LLUDPMessageLogEntry):
